@@ -470,6 +470,10 @@ class StmtMixin:
                         t = sym.NONE
                     else:
                         t = self.store_val(comp, node)
+                        if isinstance(comp, SV):
+                            # ghost: where this object was yielded (lets a contract state completeness without an existential)
+                            pos = self.heap.get('$ypos', pr)
+                            self.heap.put('$ypos', pr, z3.Store(pos, sym.r_of(t), pl.len))
                     self.heap.put_l(pr, ListT(sym.simp(pl.len + 1), z3.Store(pl.item, pl.len, t)))
             self.eng.yield_hook(self, fr, v, node)
             return
@@ -542,6 +546,11 @@ class StmtMixin:
                 l, pathfn = it.a, it.b
                 n = sym.simp(l.len)
                 return ('sym', n, lambda i, l=l: TupleV([PathV(pathfn(sym.r_of(z3.Select(l.item, i)))), SV(z3.Select(l.item, i))]), l)
+            if k == 'pairs':
+                # result of a generator of (path, node) pairs under contract: node identities in list `a`, paths in the ghost table `b`
+                l, tbl = it.a, it.b[0]
+                n = sym.simp(l.len)
+                return ('sym', n, lambda i, l=l, tbl=tbl: TupleV([PathV(z3.Select(tbl, i)), SV(z3.Select(l.item, i))]), (l, tbl))
             if k == 'lazygen':
                 self.unsupported(node, 'iteration over a generator expression')
             self.unsupported(node, f'iteration over {k}')
